@@ -4,12 +4,15 @@ import (
 	"github.com/vulcand/oxy/v2/zverif/c01"
 	"github.com/vulcand/oxy/v2/zverif/c02"
 	"github.com/vulcand/oxy/v2/zverif/c03"
+	"github.com/vulcand/oxy/v2/zverif/c10"
 	"github.com/vulcand/oxy/v2/zverif/c14"
 	"github.com/vulcand/oxy/v2/zverif/c17"
 	"github.com/vulcand/oxy/v2/zverif/cb"
 )
 
 func init() {
+	parts["c10"] = c10.Run
+	replays["c10"] = c10.Replay
 	parts["cb"] = cb.Run
 	replays["cb"] = cb.Replay
 	parts["c14"] = c14.Run
